@@ -21,8 +21,11 @@ def request_case(rng):
     req_stack = w.new_stack()
     resp = w.new_stack()
     net = sim.Net(w, latency=lambda r, a, b, f: r.choice([1, 1000]))
-    req_ca = j.ControllerApplication(j.Name(value=5), 0x10, True)
+    # the requester: a CA operational at 0x10, or a CA that holds no address yet (it may only ask for address claims, from 254)
+    homeless = rng.random() < 0.3
+    req_ca = j.ControllerApplication(j.Name(value=5), 0x10, not homeless)
     req_stack.ecu.add_ca(controller_application=req_ca)
+    req_sa = 254 if homeless else 0x10
     cas = []
     called = []
     for k in range(rng.randrange(1, 4)):
@@ -46,6 +49,8 @@ def request_case(rng):
     # requests
     for _ in range(rng.randrange(1, 6)):
         pgn = rng.choice([0xEE00, 0xFECA, 0xEE01, 0xEEFF, 0x2EE00, 0x1EE00, 0x3FFFF, 0, 1 << rng.randrange(18), rng.getrandbits(18)])
+        if homeless:
+            pgn = 0xEE00
         dest = rng.choice([255, 0x80, 0x81, 0x82, 0x90, 0x20, 0x33])
         called.clear()
         resp.sent.clear()
@@ -61,12 +66,12 @@ def request_case(rng):
             if called or sorted(claims) != exp:
                 bad.append(f"request for the address-claim PGN to {dest:#x}: callbacks {called}, claims {claims}, expected claims {exp}")
         else:
-            exp = sorted((k, 0x10, dest, pgn) for k in owners)
+            exp = sorted((k, req_sa, dest, pgn) for k in owners)
             if sorted(called) != exp or claims:
                 bad.append(f"request pgn={pgn:#x} to {dest:#x}: callbacks {sorted(called)} expected {exp}; claim frames {claims}")
         if bad:
             break
-    return bad, dict(responders=[(m, ca.state, ca.device_address) for ca, m in cas])
+    return bad, dict(responders=[(m, ca.state, ca.device_address) for ca, m in cas], requester=req_sa)
 
 
 def oracle(ctx, full):
@@ -83,7 +88,7 @@ def oracle(ctx, full):
             findings.append(dict(signature=dict(family='request-dispatch'), what=bad[0], scenario=desc, all=bad[:5]))
             break
     return dict(findings=findings, evaluations=evals, distinct_nontrivial=len(distinct), samples=samples,
-                rule="requester CA on one real stack, 1-3 responder CAs on another in claim states operational / not started / waiting for veto / "
+                rule="requester CA on one real stack (operational at 0x10, or — 30 % — without an address, asking for address claims from 254), 1-3 responder CAs on another in claim states operational / not started / waiting for veto / "
                      "cannot-claim / moved to the next address after losing; requests for boundary and random 18-bit PGNs (incl. 0xEE00 and its "
                      "look-alikes) to global, owned and unowned destinations; callbacks and address-claimed answers compared with the operational "
                      "owners of the destination")
